@@ -94,4 +94,87 @@ theorem C20_ready_bounded (o : Oracle) (ids : List String) : ∀ (t k : Nat), (r
     · have := ih (doCall o k (Call.describeStatus ids)).k
       simp [doCall_j]; omega
 
+/-! ### The not-in-group stop is always founded -/
+
+theorem belongs_decDesired (g : PGroup) (n : Node) : belongs (decDesired g) n = belongs g n := rfl
+
+theorem terminateLoop_notInGroup (o : Oracle) : ∀ (nodes : List Node) (k : Nat) (g : PGroup),
+    (terminateLoop o k g nodes).val.err = .notInGroup → ∃ x ∈ nodes, belongs g x = false := by
+  intro nodes
+  induction nodes with
+  | nil => intro k g h; simp [terminateLoop] at h
+  | cons n ns ih =>
+    intro k g h
+    unfold terminateLoop at h
+    by_cases hb : belongs g n = true
+    · simp only [hb, if_true] at h
+      split at h
+      · obtain ⟨x, hx, hbx⟩ := ih _ _ h
+        exact ⟨x, List.mem_cons_of_mem _ hx, by rw [← belongs_decDesired]; exact hbx⟩
+      · simp at h
+    · exact ⟨n, List.mem_cons_self, by simpa using hb⟩
+
+theorem tryDelete_notInGroup (o : Oracle) (k : Nat) (g : PGroup) (cands : List Node)
+    (h : (tryDelete o k g cands).val.err = .notInGroup) : ∃ x ∈ cands, belongs g x = false := by
+  unfold tryDelete at h
+  split at h
+  · simp at h
+  · dsimp only at h
+    split at h
+    · split at h <;> simp at h
+    · rename_i ha
+      unfold awsDeleteNodes at ha
+      split at ha
+      · simp at ha
+      · split at ha
+        · simp at ha
+        · exact terminateLoop_notInGroup o cands k g ha
+    · simp at h
+
+theorem scaleUp_not_notInGroup (o : Oracle) (k : Nat) (dry : Bool) (cfg : GroupCfg) (st : GState) (g : PGroup)
+    (nowReal : Int) (hint : List Nat) (tainted : List Node) (want : Int) :
+    (scaleUp o k dry cfg st g nowReal hint tainted want).val.err ≠ .notInGroup := by
+  unfold scaleUp; dsimp only
+  split
+  · split
+    · simp
+    · split
+      · simp
+      · split <;> simp
+  · simp
+
+/-- **C20 (the one documented stop is founded).** Whenever the acting half of a group scan ends with the
+    not-in-group error — the only error of a scan that stops the controller (`C20_outcomes`, `C19_not_member_fatal`) —
+    one of its removal candidates (an empty force-tainted node, or a tainted node past its grace period) really is not
+    a member of the cloud group as described at the start of the scan. An API failure, a refused request, a failed
+    cloud increase can never surface as this stop. -/
+theorem C20_stop_founded (o : Oracle) (k : Nat) (dry : Bool) (cfg : GroupCfg) (st : GState) (g : PGroup) (pods : List Pod)
+    (h : Hints) (nowMock nowReal : Int) (untainted tainted force : List Node) (mj : Journal) (delta : Int)
+    (herr : (scanAct o k dry cfg st g pods h nowMock nowReal untainted tainted force mj delta).val.err = .notInGroup) :
+    ∃ x ∈ forceCands dry pods force ++ reaperCands dry cfg pods nowMock tainted, belongs g x = false := by
+  have hg : ∀ x, belongs (tryDelete o k g (forceCands dry pods force)).val.g x = belongs g x := by
+    intro x; unfold belongs; rw [(tryDelete_g o k g _).1]
+  unfold scanAct at herr; dsimp only at herr
+  split at herr
+  · rename_i hf
+    obtain ⟨x, hx, hb⟩ := tryDelete_notInGroup o k g _ hf
+    exact ⟨x, List.mem_append_left _ hx, hb⟩
+  · split at herr
+    · split at herr
+      · rename_i hr
+        obtain ⟨x, hx, hb⟩ := tryDelete_notInGroup o _ _ _ hr
+        exact ⟨x, List.mem_append_right _ hx, by rw [← hg]; exact hb⟩
+      · simp at herr
+    · split at herr
+      · split at herr
+        · simp at herr
+        · rename_i hu
+          exact absurd hu (scaleUp_not_notInGroup o _ dry cfg st _ nowReal h.new tainted delta)
+        · simp at herr
+      · split at herr
+        · rename_i hr
+          obtain ⟨x, hx, hb⟩ := tryDelete_notInGroup o _ _ _ hr
+          exact ⟨x, List.mem_append_right _ hx, by rw [← hg]; exact hb⟩
+        · simp at herr
+
 end Esc.P
